@@ -8,6 +8,12 @@ namespace Petl.Snapshot
 open Petl.Gen
 
 def expectedC06 : List (String × String) := [
+  ("file:comparison.py", "17971f67ee946013"),
+  ("file:config.py", "142bde514c82c29d"),
+  ("file:transform/basics.py", "ef1ded632cafe787"),
+  ("file:transform/joins.py", "bb9e0069e4d5e3a6"),
+  ("file:transform/sorts.py", "137f7e8a70e043fe"),
+  ("file:util/base.py", "771a68108eeb730d"),
   ("transform.joins.AntiJoinView", "186aa24c67cf2f25"),
   ("transform.joins.CrossJoinView", "23f758e751cf407d"),
   ("transform.joins.JoinView", "f25f79d527b6c240"),
